@@ -34,7 +34,7 @@ NP_OF = {
     'C04': [('UtilsTests', ['is_ergodic', 'ergodic_mask']), ('MsmNorm', ['row_normalize_matrix', 'equilibrium_population'])],
     'C01': [('StateTrajEst', ['estimate_markov_model']), ('StateTrajInit', ['init']), ('MsmNorm', ['row_normalize_matrix']), ('MsmEstimate', ['estimate_markov_model_perm', 'estimate_markov_model_default'])],
     'C03': [('StateTrajHS', ['_estimate_markov_model']), ('MsmNorm', ['row_normalize_matrix']), ('LumpedEst', ['estimate_markov_model'])],
-    'C09': [('MsmTests', ['_calc_times', '_chapman_kolmogorov_test', '_chapman_kolmogorov_test_md'])],
+    'C09': [('MsmTests', ['_calc_times', '_chapman_kolmogorov_test', '_chapman_kolmogorov_test_md']), ('MsmCkApi', ['chapman_kolmogorov_test'])],
     'C19': [('PlotCkTest', ['_split_array'])],
     'C05': [('MdCoringApi', ['dynamical_coring'])],
     'C20': [('UtilsFiltering', ['runningmean'])],
@@ -57,7 +57,7 @@ SOURCE_OF = {'MsmMsm': 'msm/msm.py', 'MdCorrections': 'md/corrections.py', 'MdTi
              'UtilsTests': 'utils/tests.py', 'MsmNorm': 'msm/msm.py', 'PlotCkTest': 'plot/_ck_test.py', 'MsmTests': 'msm/tests.py',
              'StateTrajHS': 'statetraj.py', 'MsmCummat': 'msm/timescales.py', 'MsmTimes': 'msm/timescales.py', 'StateTrajBase': 'statetraj.py',
              'UtilsRelabel': 'utils/_utils.py', 'StateTrajInit': 'statetraj.py', 'StateTrajAcc': 'statetraj.py', 'LumpedAcc': 'statetraj.py', 'StateTrajEst': 'statetraj.py', 'LumpedEst': 'statetraj.py', 'MsmEstimate': 'msm/msm.py', 'MsmMcmcApi': 'msm/timescales.py', 'UtilsFiltering': 'utils/filtering.py', 'IoLimits': 'io.py',
-             'UtilsDatasets': 'utils/datasets.py', 'MdCompareApi': 'md/comparison.py', 'MdTimesApi': 'md/timescales.py', 'MdCoringApi': 'md/corrections.py'}
+             'UtilsDatasets': 'utils/datasets.py', 'MsmCkApi': 'msm/tests.py', 'MdCompareApi': 'md/comparison.py', 'MdTimesApi': 'md/timescales.py', 'MdCoringApi': 'md/corrections.py'}
 ATOL = 1e-8
 G = 1 << 53
 
@@ -202,6 +202,17 @@ def gen_cases(module, kernel, rng, n):
             n = rng.randint(0, 24)
             arr = sorted(rng.sample(range(-5, 60), n))
             yield {'k': kernel, 'args': [arr, rng.choice([0, 1, 1, 2, 3, 4, 5, 6, 7, 12, 30])], 'mode': 'py'}
+        elif module == 'MsmCkApi':
+            ns_ = rng.randint(2, 3)
+            labs = sorted(rng.sample(range(-5, 30), ns_))
+            t = [labs[i] for i in _sticky(rng, rng.randint(8, 20), ns_)]
+            for l_ in labs:
+                if l_ not in t:
+                    t.append(l_)
+            lags = rng.sample([1, 2, 3, 4], rng.randint(1, 3))
+            if rng.random() < 0.1:
+                lags = lags + [0]
+            yield {'k': kernel, 'args': None, 'trajs': [t], 'lags': lags, 'tmax': rng.choice([-1, 2, 5, 9, 14]), 'mode': 'py'}
         elif module == 'MsmTests' and kernel != '_calc_times':
             ns_ = rng.randint(2, 3)
             labs = sorted(rng.sample(range(-5, 30), ns_))
@@ -474,6 +485,39 @@ def real_one(module, case):
         inputs, fn = None, None
         if module != 'StateTrajBase':
             fn = getattr(mod, 'runningmean' if module == 'UtilsFiltering' else 'open_limits')
+    elif module == 'MsmCkApi':
+        import msmhelper as mh
+        fn = None
+        try:
+            obj = mh.StateTraj([np.array(t, dtype=np.int64) for t in case['trajs']])
+            sts = [int(x) for x in obj.states]
+            lags = sorted(case['lags'])
+            need = set(l_ for l_ in lags if l_ > 0)
+            grid = []
+            if lags and lags[0] > 0 and case['tmax'] >= 0:
+                grid = np.around(np.geomspace(start=lags[0], stop=case['tmax'], num=30)).astype(np.int64) if case['tmax'] > 0 else np.array([0])
+                need |= set(int(x) for x in np.unique(grid) if x > 0)
+            table = []
+            for l_ in sorted(need):
+                try:
+                    T, st_ = obj.estimate_markov_model(int(l_))
+                    table.append([int(l_), [_ratmat(np.asarray(T).tolist()), [int(x) for x in st_]]])
+                except Exception:  # noqa
+                    pass
+            inputs = {'args': [int(obj.nstates), sts, case['lags'], case['tmax']], 'oracle': {'estimate': table, 'times': [int(x) for x in grid]}}
+
+            def ckc(d, lists):
+                out = [[[int(k_), [core.rat_str(float(v)) for v in vals]] for k_, vals in d['ck'].items()], [int(x) for x in d['time']]]
+                out += ([[bool(x) for x in d['is_ergodic']], [bool(x) for x in d['is_fuzzy_ergodic']]] if lists
+                        else [bool(d['is_ergodic']), bool(d['is_fuzzy_ergodic'])])
+                return out
+
+            def _run():
+                res = mod.chapman_kolmogorov_test(obj, case['lags'], case['tmax'])
+                return [[[int(k_), ckc(v_, False)] for k_, v_ in res.items() if k_ != 'md'], ckc(res['md'], True)]
+            case = dict(case, _run=_run)
+        except Exception as e:  # noqa
+            return {'skip': core.err_name(e)}
     elif module == 'MsmTests' and case['k'] != '_calc_times':
         import msmhelper as mh
         fn = None
@@ -790,6 +834,8 @@ def real_one(module, case):
                 return [int(v) for v in mod.propagate_MCMC(mh.StateTraj([np.array(a[0], dtype=np.int64)]), a[1], a[2], start=a[3])]
             finally:
                 mod._get_cummat, mod._propagate_MCMC, np.random.choice = o_cm, o_pr, o_ch
+        if module == 'MsmCkApi':
+            return case['_run']()
         if module in ('MsmTimes', 'MdCompareApi', 'MdTimesApi', 'MdCoringApi', 'StateTrajAcc', 'LumpedAcc', 'StateTrajEst', 'LumpedEst') or (module == 'MsmTests' and k != '_calc_times'):
             return case['_run']()
         if module == 'MsmCummat':
@@ -943,6 +989,26 @@ def same(case, real, gen):
                 if abs(fx - fy) > Fraction(1, 10 ** 14):
                     return False
         return True
+    if k == 'chapman_kolmogorov_test':
+        def unnest(cur, n_):
+            flat = []
+            while isinstance(cur, list) and len(cur) == 2 and len(flat) < n_ - 1:
+                flat.append(cur[0])
+                cur = cur[1]
+            flat.append(cur)
+            return flat
+
+        def ck_same(a_, b_):
+            if len(a_) != 4 or len(b_) != 4 or a_[1:] != b_[1:] or len(a_[0]) != len(b_[0]):
+                return False
+            return all(ka == kb and len(va) == len(vb) and all(abs(Fraction(x) - Fraction(y)) <= Fraction(1, 10 ** 9) for x, y in zip(va, vb))
+                       for (ka, va), (kb, vb) in zip(a_[0], b_[0]))
+        if len(g) != 2 or len(r[0]) != len(g[0]):
+            return False
+        for (la, ca), (lb, cb) in zip(r[0], g[0]):
+            if la != lb or not ck_same(ca, unnest(cb, 4)):
+                return False
+        return ck_same(r[1], unnest(g[1], 4))
     if k in ('_chapman_kolmogorov_test', '_chapman_kolmogorov_test_md'):
         flat, cur = [], g
         while isinstance(cur, list) and len(cur) == 2 and len(flat) < 3:
